@@ -884,6 +884,15 @@ func (t *Tr) selectInstr(x *ssa.Select) {
 		if st.Dir == types.SendOnly {
 			// (the obligation is stated for the case that this send is the one taken)
 			t.pseudoCall(st.Chan, st.Send, st.Pos)
+			// "selectsend.<channel variable>"(chan, value, the channels of the select's receive cases in source
+			// order): lets a clause say which channels a blocked hand-over keeps watching
+			args := []ssa.Value{st.Chan, st.Send}
+			for _, o := range x.States {
+				if o.Dir == types.RecvOnly {
+					args = append(args, o.Chan)
+				}
+			}
+			t.pseudoCallNamed("selectsend."+chanName(st.Chan), args, st.Pos)
 		}
 	}
 	tup := x.Type().(*types.Tuple)
